@@ -82,7 +82,7 @@ func runC04(c *Ctx, r *Report) {
 	r.Rule("C04/step-table", "processAcquirePriv: current-level selection, no-action / transition bookkeeping, next hop and direction on every path", 9)
 	r.Rule("C04/step-wiring", "escalate/deescalate transmit their own level's command; AcquirePriv dispatches each action to its step and returns step errors", 6)
 	r.Rule("C04/bounded", "the AcquirePriv loop is bounded by a counter compared with the number of levels and re-reads the prompt each iteration", 2)
-	r.Rule("C04/acquire-before-send", "commands run after acquiring the default desired level (when the cached level differs); configs / interactive after acquiring the requested, else configuration / default, level", 8)
+	r.Rule("C04/acquire-before-send", "commands run after acquiring the default desired level (when the cached level differs); configs / interactive after acquiring the requested, else configuration / default, level", 5)
 
 	checkLevelDetection(c, r)
 	checkGetPromptShape(c, r)
@@ -207,7 +207,7 @@ func runC04(c *Ctx, r *Report) {
 
 	// ---- step-table
 	{
-		pure := func(call *ssa.Call) bool { return true }
+		pure := atomsExcept("determineCurrentPriv", "buildPrivChangeMap", "escalate", "deescalate", "processAcquirePriv")
 		paths := EnumeratePaths(c, proc, &dtConfig{IsAtomCall: pure})
 		d := "param:" + proc.Params[0].Name()
 		target := "param:" + proc.Params[1].Name()
@@ -388,7 +388,7 @@ func runC04(c *Ctx, r *Report) {
 		r.Check(okAuth && seenAuth, "C04/step-wiring", "escalate with authentication", c.Pos(esc.Pos()), "[escalate command -> escalate prompt, secret(hidden) -> level pattern]", "escalate: "+msg)
 		// completion patterns of the escalation dialogue: previous level's and target level's compiled patterns
 		okCP := false
-		for _, clos := range AnonFuncsDeep(esc) {
+		for _, clos := range anonFuncsWithHelpers(esc) {
 			allInstrs(clos, func(in ssa.Instruction) {
 				f, _, v, ok := fieldStore(in)
 				if !ok || f.Name() != "CompletePatterns" {
